@@ -36,6 +36,8 @@ type Value struct {
 	// the offset of x's own view; lets copies be stated relative to x's view (matching-friendly).
 	Base *Term
 	Rel  *Term
+	// Dyn: the concrete value inside an interface value, when statically known (devirtualisation)
+	Dyn *Value
 }
 
 func intV(t *Term) Value  { return Value{K: VInt, T: t} }
@@ -199,6 +201,16 @@ func walkLeaves(t types.Type, steps []subStep, visit func(steps []subStep, lf le
 		}
 		visit(steps, leaf{Owner: key, Field: f.Name(), Typ: f.Type(), K: k, ElemU: eu})
 	}
+	for _, name := range sortedKeys(ghostFieldTable[key]) {
+		visit(steps, ghostLeaf(key, name, ghostFieldTable[key][name]))
+	}
+}
+
+func ghostLeaf(owner, name, kind string) leaf {
+	if kind == "bool" {
+		return leaf{Owner: owner, Field: name, Typ: types.Typ[types.Bool], K: VBool}
+	}
+	return leaf{Owner: owner, Field: name, Typ: types.Typ[types.Int], K: VInt}
 }
 
 func typeKey(t types.Type) string {
